@@ -1,123 +1,117 @@
 import KalignModel.Model.Cmp
-/-! # `strncmp` is (the sign of) the lexicographic order of the `n`-byte prefixes -/
+/-! # `strcmp` is (the sign of) the lexicographic order of NUL-free byte strings
+
+(The file keeps its historical name: until commits 15117bc / 0022995 of the C sources the
+comparators used `strncmp(·,·,256)`.) -/
 namespace Kalign
 
 theorem byte_ne_iff (x y : UInt8) : x ≠ y ↔ x.toNat ≠ y.toNat := by
   rw [Ne, Ne, UInt8.toNat_inj]
 
-theorem strncmp_swap (n : Nat) (a b : Name) : strncmp n b a = - strncmp n a b := by
-  induction n generalizing a b with
-  | zero => simp [strncmp]
-  | succ n ih =>
-    cases a with
-    | nil => cases b <;> simp [strncmp]
-    | cons x xs =>
-      cases b with
-      | nil => simp [strncmp]
-      | cons y ys =>
-        simp only [strncmp]
-        by_cases h : x = y
-        · subst h
-          simp only [ne_eq, not_true_eq_false, if_false]
-          exact ih _ _
-        · have h' : ¬ y = x := fun e => h e.symm
-          simp only [h, h', ne_eq, not_false_eq_true, if_true]; omega
+theorem strcmp_swap (a b : Name) : strcmp b a = - strcmp a b := by
+  induction a generalizing b with
+  | nil => cases b <;> simp [strcmp]
+  | cons x xs ih =>
+    cases b with
+    | nil => simp [strcmp]
+    | cons y ys =>
+      simp only [strcmp]
+      by_cases h : x = y
+      · subst h
+        simp only [ne_eq, not_true_eq_false, if_false]
+        exact ih _
+      · have h' : ¬ y = x := fun e => h e.symm
+        simp only [h, h', ne_eq, not_false_eq_true, if_true]; omega
 
-theorem strncmp_self (n : Nat) (a : Name) : strncmp n a a = 0 := by
-  have := strncmp_swap n a a; omega
+theorem strcmp_self (a : Name) : strcmp a a = 0 := by
+  have := strcmp_swap a a; omega
 
-theorem strncmp_trans_lt (n : Nat) (a b c : Name)
-    (h1 : strncmp n a b < 0) (h2 : strncmp n b c < 0) : strncmp n a c < 0 := by
-  induction n generalizing a b c with
-  | zero => simp [strncmp] at h1
-  | succ n ih =>
-    cases a with
-    | nil =>
-      cases b with
-      | nil => simp [strncmp] at h1
-      | cons y ys =>
-        cases c with
-        | nil => simp only [strncmp] at h2; omega
-        | cons z zs =>
-          simp only [strncmp] at h1 h2 ⊢
-          by_cases hyz : y = z
-          · subst hyz; omega
-          · simp only [hyz, ne_eq, not_false_eq_true, if_true] at h2; omega
-    | cons x xs =>
-      cases b with
-      | nil => simp only [strncmp] at h1; omega
-      | cons y ys =>
-        cases c with
-        | nil => simp only [strncmp] at h2; omega
-        | cons z zs =>
-          simp only [strncmp] at h1 h2 ⊢
-          by_cases hxy : x = y
-          · subst hxy
-            simp only [ne_eq, not_true_eq_false, if_false] at h1
-            by_cases hxz : x = z
-            · subst hxz
-              simp only [ne_eq, not_true_eq_false, if_false] at h2 ⊢
-              exact ih _ _ _ h1 h2
-            · simp only [hxz, ne_eq, not_false_eq_true, if_true] at h2 ⊢; exact h2
-          · simp only [hxy, ne_eq, not_false_eq_true, if_true] at h1
-            by_cases hyz : y = z
-            · subst hyz
-              simp only [hxy, ne_eq, not_false_eq_true, if_true]; exact h1
-            · simp only [hyz, ne_eq, not_false_eq_true, if_true] at h2
-              have hxz : x ≠ z := by
-                rw [byte_ne_iff]; omega
-              simp only [hxz, ne_eq, not_false_eq_true, if_true]; omega
-
-theorem strncmp_eq_zero_iff (n : Nat) (a b : Name) (ha : NulFree a) (hb : NulFree b) :
-    strncmp n a b = 0 ↔ a.take n = b.take n := by
-  induction n generalizing a b with
-  | zero => simp [strncmp]
-  | succ n ih =>
-    cases a with
-    | nil =>
-      cases b with
-      | nil => simp [strncmp]
-      | cons y ys =>
-        have hy : y ≠ 0 := hb y List.mem_cons_self
-        have : y.toNat ≠ 0 := by
-          have := (byte_ne_iff y 0).mp hy; simpa using this
-        simp only [strncmp, List.take_nil, List.take_succ_cons]
-        constructor
-        · intro h; omega
-        · intro h; cases h
-    | cons x xs =>
-      cases b with
-      | nil =>
-        have hx : x ≠ 0 := ha x List.mem_cons_self
-        have : x.toNat ≠ 0 := by
-          have := (byte_ne_iff x 0).mp hx; simpa using this
-        simp only [strncmp, List.take_nil, List.take_succ_cons]
-        constructor
-        · intro h; omega
-        · intro h; cases h
-      | cons y ys =>
-        simp only [strncmp, List.take_succ_cons, List.cons.injEq]
-        have ha' : NulFree xs := fun b hb' => ha b (List.mem_cons_of_mem _ hb')
-        have hb' : NulFree ys := fun b hb'' => hb b (List.mem_cons_of_mem _ hb'')
+theorem strcmp_trans_lt (a b c : Name)
+    (h1 : strcmp a b < 0) (h2 : strcmp b c < 0) : strcmp a c < 0 := by
+  induction a generalizing b c with
+  | nil =>
+    cases b with
+    | nil => simp [strcmp] at h1
+    | cons y ys =>
+      cases c with
+      | nil => simp only [strcmp] at h2; omega
+      | cons z zs =>
+        simp only [strcmp] at h1 h2 ⊢
+        by_cases hyz : y = z
+        · subst hyz; omega
+        · simp only [hyz, ne_eq, not_false_eq_true, if_true] at h2; omega
+  | cons x xs ih =>
+    cases b with
+    | nil => simp only [strcmp] at h1; omega
+    | cons y ys =>
+      cases c with
+      | nil => simp only [strcmp] at h2; omega
+      | cons z zs =>
+        simp only [strcmp] at h1 h2 ⊢
         by_cases hxy : x = y
         · subst hxy
-          simp only [ne_eq, not_true_eq_false, if_false, true_and]
-          exact ih xs ys ha' hb'
-        · simp only [hxy, ne_eq, not_false_eq_true, if_true, false_and, iff_false]
-          have := (byte_ne_iff x y).mp hxy
-          omega
+          simp only [ne_eq, not_true_eq_false, if_false] at h1
+          by_cases hxz : x = z
+          · subst hxz
+            simp only [ne_eq, not_true_eq_false, if_false] at h2 ⊢
+            exact ih _ _ h1 h2
+          · simp only [hxz, ne_eq, not_false_eq_true, if_true] at h2 ⊢; exact h2
+        · simp only [hxy, ne_eq, not_false_eq_true, if_true] at h1
+          by_cases hyz : y = z
+          · subst hyz
+            simp only [hxy, ne_eq, not_false_eq_true, if_true]; exact h1
+          · simp only [hyz, ne_eq, not_false_eq_true, if_true] at h2
+            have hxz : x ≠ z := by
+              rw [byte_ne_iff]; omega
+            simp only [hxz, ne_eq, not_false_eq_true, if_true]; omega
 
-/-- two names are comparable under `strncmp(·,·,n) < 0` unless their `n`-byte prefixes agree -/
-theorem strncmp_total (n : Nat) (a b : Name) (ha : NulFree a) (hb : NulFree b)
-    (hne : a.take n ≠ b.take n) : strncmp n a b < 0 ∨ strncmp n b a < 0 := by
-  have h0 : strncmp n a b ≠ 0 := fun h => hne ((strncmp_eq_zero_iff n a b ha hb).mp h)
-  have := strncmp_swap n a b
+theorem strcmp_eq_zero_iff (a b : Name) (ha : NulFree a) (hb : NulFree b) :
+    strcmp a b = 0 ↔ a = b := by
+  induction a generalizing b with
+  | nil =>
+    cases b with
+    | nil => simp [strcmp]
+    | cons y ys =>
+      have hy : y ≠ 0 := hb y List.mem_cons_self
+      have : y.toNat ≠ 0 := by
+        have := (byte_ne_iff y 0).mp hy; simpa using this
+      simp only [strcmp]
+      constructor
+      · intro h; omega
+      · intro h; cases h
+  | cons x xs ih =>
+    cases b with
+    | nil =>
+      have hx : x ≠ 0 := ha x List.mem_cons_self
+      have : x.toNat ≠ 0 := by
+        have := (byte_ne_iff x 0).mp hx; simpa using this
+      simp only [strcmp]
+      constructor
+      · intro h; omega
+      · intro h; cases h
+    | cons y ys =>
+      simp only [strcmp, List.cons.injEq]
+      have ha' : NulFree xs := fun b hb' => ha b (List.mem_cons_of_mem _ hb')
+      have hb' : NulFree ys := fun b hb'' => hb b (List.mem_cons_of_mem _ hb'')
+      by_cases hxy : x = y
+      · subst hxy
+        simp only [ne_eq, not_true_eq_false, if_false, true_and]
+        exact ih ys ha' hb'
+      · simp only [hxy, ne_eq, not_false_eq_true, if_true, false_and, iff_false]
+        have := (byte_ne_iff x y).mp hxy
+        omega
+
+/-- two distinct names are comparable under `strcmp(·,·) < 0` -/
+theorem strcmp_total (a b : Name) (ha : NulFree a) (hb : NulFree b)
+    (hne : a ≠ b) : strcmp a b < 0 ∨ strcmp b a < 0 := by
+  have h0 : strcmp a b ≠ 0 := fun h => hne ((strcmp_eq_zero_iff a b ha hb).mp h)
+  have := strcmp_swap a b
   omega
 
-/-- equal prefixes compare equal (no NUL-freeness needed) -/
-theorem strncmp_append_eq_zero (p x y : Name) : strncmp p.length (p ++ x) (p ++ y) = 0 := by
+/-- a common prefix does not hide what follows it: `strcmp (p ++ x) (p ++ y) = strcmp x y` -/
+theorem strcmp_append_left (p x y : Name) : strcmp (p ++ x) (p ++ y) = strcmp x y := by
   induction p with
-  | nil => simp [strncmp]
-  | cons c p ih => simp [strncmp, ih]
+  | nil => rfl
+  | cons c p ih => simp [strcmp, ih]
 
 end Kalign
